@@ -129,6 +129,37 @@ def writers(repo: Repo, reach, rel: str, name: str) -> List[str]:
     return sorted(set(out))
 
 
+def clearers(repo: Repo, reach, rel: str, name: str) -> List[str]:
+    """functions (anywhere in the analysed modules) that empty the cell: NAME.clear() or `global NAME; NAME = <new container>`"""
+    out = []
+    for r2, m in repo.modules.items():
+        if r2.startswith(SKIP):
+            continue
+        local = None
+        if r2 == rel:
+            local = name
+        else:
+            for k, (d, a) in m.imports.items():
+                if a == name and repo.name_to_rel.get(d) == rel:
+                    local = k
+        if local is None:
+            continue
+        for fn in ast.walk(m.tree):
+            if not isinstance(fn, ast.FunctionDef):
+                continue
+            hit = False
+            for n in ast.walk(fn):
+                if isinstance(n, ast.Call) and isinstance(n.func, ast.Attribute) and n.func.attr == "clear" and isinstance(n.func.value, ast.Name) and n.func.value.id == local:
+                    hit = True
+                if isinstance(n, ast.Assign) and any(isinstance(t, ast.Name) and t.id == local for t in n.targets) and \
+                        any(isinstance(g, ast.Global) and local in g.names for g in ast.walk(fn)) and \
+                        isinstance(n.value, (ast.Dict, ast.List, ast.Set, ast.Call)):
+                    hit = True
+            if hit:
+                out.append(f"{r2}:{fn.name}")
+    return sorted(set(out))
+
+
 # ------------------------------------------------------------------ verification helpers
 def entry_calls_before_simulator(repo: Repo, wanted: Set[str], inline_names: Set[str]):
     """for every non-raising path of _isolated_backtest: the set of wanted callee names seen before `simulator`"""
@@ -267,6 +298,14 @@ def run(repo: Repo, rep, tier: str):
         if kind == "container":
             if not w:
                 return None        # read-only table
+            # emptied / re-created by a function that runs before the simulator on every path of _isolated_backtest?
+            cl = clearers(repo, reach, rel, name)
+            if cl:
+                names_ = {c.split(":")[1] for c in cl}
+                seen = entry_calls_before_simulator(repo, names_, {"initiate", "reset", "set_routes"})
+                if any(all(nm in s_ for s_ in seen) for nm in names_):
+                    return None
+                return f"written by {w}; emptied only by {cl}, which does not run before the simulator on every path of _isolated_backtest"
             return f"written by {w} and never reset on entry of _isolated_backtest"
         # ---- memos
         if kind == "memo":
